@@ -7,6 +7,7 @@ import (
 	"fmt"
 
 	jschema "github.com/jsightapi/jsight-schema-go-library"
+	liberrors "github.com/jsightapi/jsight-schema-go-library/errors"
 	libjson "github.com/jsightapi/jsight-schema-go-library/formats/json"
 	js "github.com/jsightapi/jsight-schema-go-library/notations/jschema"
 	"github.com/jsightapi/jsight-schema-go-library/notations/regex"
@@ -66,6 +67,10 @@ func Canon(err error) Res {
 	} else if errors.As(err, &ve) {
 		r.Lib, r.Code, r.Msg = true, ve.ErrCode(), ve.Message()
 	} else {
+		var ce liberrors.Err
+		if errors.As(err, &ce) {
+			r.Code = int(ce.Code()) // a bare errors.Errorf: has a code but no position (not a ParsingError)
+		}
 		r.Msg, _ = ErrorText(err)
 	}
 	return r
